@@ -251,7 +251,9 @@ class ExprMixin:
         if m is not None and self.is_abstract_method(m):
             # abstract truth value: a volatile ghost (pure function of the heap within one atomic segment)
             arr = st.harr(self.ABSTRACT_TRUTH, z3.ArraySort(RefS, z3.BoolSort()))
-            return k(z3.Select(arr, v.t), st)
+            t = z3.Select(arr, v.t)
+            self.dispatch_axioms(st, v, t, cn)
+            return k(t, st)
         if m is None:
             lm = self.find_repo_method(cn, "__len__")
             if lm is not None:
@@ -266,6 +268,37 @@ class ExprMixin:
                           lambda s: self.call_method(v, "__bool__", [], {}, s, after))
 
     ABSTRACT_TRUTH = "Condition.$truth"
+
+    def dispatch_axioms(self, st, v, t, cn):
+        """abstract truth = result of dynamic dispatch: for every modelled concrete subclass C,
+        cls_of(x) <= C  implies  truth[x] == C.__bool__(x)"""
+        if st.heap_override is not None:
+            snap_id = id(st.heap_override)
+        else:
+            snap_id = (st.epoch, st.heap.get(self.ABSTRACT_TRUTH).get_id() if st.heap.get(self.ABSTRACT_TRUTH) is not None else 0)
+        key = ("dispatch", v.t.get_id(), snap_id, len(st.wrote))
+        if key in st.touched or getattr(self, "_in_dispatch", False):
+            return
+        st.touched = st.touched | {key}
+        self._in_dispatch = True
+        try:
+            base_ci = self.class_info(cn)
+            for name, lst in list(self.repo.classes_by_name.items()):
+                for ci in lst:
+                    if ci.name not in self.reg.models or ci is base_ci or base_ci not in self.repo.mro(ci):
+                        continue
+                    m = ci.methods.get("__bool__")
+                    if m is None or self.is_abstract_method(m):
+                        continue
+                    obj = Val(REF(ci.name), v.t)
+                    try:
+                        b = self.pure_bool(st, lambda s, kk, m=m, obj=obj: self.call_repo(
+                            m, [obj], {}, s, lambda r, s2: self.bool_of(r, s2, lambda bb, s3: kk(mk_bool(bb), s3)), self_val=obj))
+                    except Unsupported:
+                        continue
+                    st.assume(z3.Implies(subclass(cls_of(v.t), cls_const(ci.name)), t == b))
+        finally:
+            self._in_dispatch = False
 
     def is_abstract_method(self, m):
         body = [x for x in m.node.body if not (isinstance(x, ast.Expr) and isinstance(x.value, ast.Constant))]
